@@ -31,7 +31,7 @@ type ProdChunk struct {
 // ProdProgram is what the unit reads from its stdin file.
 type ProdProgram struct {
 	Chunks []ProdChunk `json:"chunks"`
-	Final  int         `json:"final"` // workceptor.WorkStateSucceeded or WorkStateFailed
+	Final  int         `json:"final"`  // workceptor.WorkStateSucceeded or WorkStateFailed
 	EndMs  int         `json:"end_ms"` // pause between the last write and the final status
 }
 
@@ -138,10 +138,10 @@ type WNode struct {
 	TCPAddr string
 	Mesh    string // service name of the control service on the mesh ("" none)
 
-	ctx      context.Context
-	cancel   context.CancelFunc
-	wcancel  context.CancelFunc
-	sockN    int
+	ctx       context.Context
+	cancel    context.CancelFunc
+	wcancel   context.CancelFunc
+	sockN     int
 	VerifyKey string
 	SignKey   string
 }
